@@ -212,6 +212,9 @@ pub struct GenCfg {
     pub currency: bool,
     /// comment lines / trailing comments / unicode operator spellings may be generated
     pub trivia: bool,
+    /// string literals that span physical lines (with blanks next to the line break) may be
+    /// generated; off where inputs are handled line by line (C22)
+    pub multiline_strings: bool,
 }
 
 pub const N_KINDS: usize = 24;
@@ -232,6 +235,11 @@ pub struct Gen {
     pub with_markers: bool,
     /// distinguishes synthetic modules of different generators that feed one importer
     pub module_tag: String,
+    /// three letters drawn per run and appended to every generated name: names of different
+    /// runs never coincide, so state that leaks between the runs of one worker (a process-wide
+    /// or thread-local table keyed by name) cannot make a violation depend on earlier runs —
+    /// what a run reports is reproducible from its own trace
+    pub name_tag: String,
     /// the statement just generated is expected to fail (re-import of a still broken module)
     expect_fail: Option<FaultKind>,
 }
@@ -264,8 +272,10 @@ const BASE_DIM_NAMES: [&str; 3] = ["Length", "Time", "Mass"];
 const BASE_UNIT_NAMES: [&str; 3] = ["m", "s", "kg"];
 
 impl Gen {
-    pub fn new(rng: Rng, cfg: GenCfg) -> Self {
+    pub fn new(mut rng: Rng, cfg: GenCfg) -> Self {
+        let name_tag: String = (0..3).map(|_| (b'a' + rng.below(26) as u8) as char).collect();
         Gen {
+            name_tag,
             rng,
             sym: Sym::default(),
             saved: None,
@@ -318,6 +328,7 @@ impl Gen {
             synthetic_modules: true,
             currency: false,
             trivia: rng.chance(0.3),
+            multiline_strings: rng.chance(0.3),
         }
     }
 
@@ -331,7 +342,7 @@ impl Gen {
 
     fn fresh(&mut self, prefix: &str) -> String {
         self.next_id += 1;
-        format!("{prefix}q{}", self.next_id)
+        format!("{prefix}q{}{}", self.next_id, self.name_tag)
     }
 
     // ---------------------------------------------------------------- dimensions and units
@@ -783,6 +794,13 @@ impl Gen {
         let vs = self.vars_of(&Ty::Str, false);
         if !vs.is_empty() && self.rng.chance(0.3) {
             return self.rng.pick(&vs).clone();
+        }
+        if self.cfg.multiline_strings && self.rng.chance(0.2) {
+            // a literal that spans two physical lines, with blanks on both sides of the break:
+            // every character of it, blanks included, belongs to the value
+            let pad1 = " ".repeat(self.rng.below(3));
+            let pad2 = " ".repeat(self.rng.below(4));
+            return format!("\"ml{}{pad1}\n{pad2}z{}\"", self.rng.range(0, 99), self.rng.range(0, 9));
         }
         if depth == 0 || self.rng.chance(0.4) {
             return format!("\"s{}\"", self.rng.range(0, 99));
@@ -1575,7 +1593,7 @@ impl Gen {
     /// Create a synthetic module (healthy, or broken in one of four ways).
     fn make_module(&mut self, broken: Option<u32>) -> String {
         self.next_id += 1;
-        let id = format!("{}{}", self.module_tag, self.next_id);
+        let id = format!("{}{}{}", self.module_tag, self.next_id, self.name_tag);
         let name = format!("sim::m{id}");
         let mut lines: Vec<String> = vec![];
         let mut deps = vec![];
@@ -2048,6 +2066,15 @@ impl Gen {
                     gi.set_modules.extend(g2.set_modules);
                     gi.features.extend(g2.features.iter());
                     stmts.push(s);
+                    // define-then-use inside the failing input: what the successful prefix just
+                    // defined (unit, function, struct) is also USED before the failure, so that
+                    // anything computed lazily about the new definition exists when the input
+                    // is rolled back
+                    if i < pos && !g2.probes.is_empty() && self.rng.chance(0.5) {
+                        let p = self.rng.pick(&g2.probes).clone();
+                        stmts.push(format!("print({p})"));
+                        gi.contains.insert("print");
+                    }
                 }
             }
             gi.fault = Some(kind);
